@@ -36,6 +36,24 @@ deriving Repr
 def findPage (pt : List Page) (a : Nat) : Option Page :=
   pt.find? (fun p => decide (p.vaddr ≤ a) && decide (a < p.vaddr + p.size))
 
+/-- per-byte translation through the page table (`vm.PageTable.Find` + offset in page);
+    specification-side definition used by the theorems, not by the executable driver -/
+def translate (pt : List Page) (a : Nat) : Option Nat :=
+  (findPage pt a).map fun p => p.paddr + (a - p.vaddr)
+
+/-- two pages have disjoint virtual ranges and disjoint physical ranges -/
+def Page.disj (p q : Page) : Prop :=
+  (p.vaddr + p.size ≤ q.vaddr ∨ q.vaddr + q.size ≤ p.vaddr) ∧
+  (p.paddr + p.size ≤ q.paddr ∨ q.paddr + q.size ≤ p.paddr)
+
+instance (p q : Page) : Decidable (Page.disj p q) := by unfold Page.disj; infer_instance
+
+/-- the page table is injective: pages pairwise disjoint virtually and physically
+    (what C10's allocator invariant provides) -/
+def PtInj (pt : List Page) : Prop := pt.Pairwise Page.disj
+
+instance (pt : List Page) : Decidable (PtInj pt) := by unfold PtInj; infer_instance
+
 /-- The loop of `processMemCopyH2DCommand`: list of (paddr, offset-in-data, len) pieces, or
     `none` when a page is missing ("page not found" panic). Fuel = bytes left (each round
     copies at least one byte). -/
@@ -85,6 +103,8 @@ structure MemReq where
   len : Nat
   /-- ghost: destination base address of the copy this piece belongs to -/
   base : Nat := 0
+  /-- ghost: id of the copy (`CpReq.id`) this sub-request was created for -/
+  owner : Nat := 0
 deriving Repr
 
 structure Coll where
@@ -154,7 +174,7 @@ def Dma.parseFromCP (s : Dma) : Dma × Bool :=
     let unit := 2 ^ s.log2
     let ps := splitBy unit (Nat.pow_pos (by decide)) r.addr r.len
     let reqs : List MemReq := ps.zipIdx.map fun (p, i) =>
-      { id := s.nextId + i, write := r.kind == Kind.h2d, addr := p.1, len := p.2, base := r.addr }
+      { id := s.nextId + i, write := r.kind == Kind.h2d, addr := p.1, len := p.2, base := r.addr, owner := r.id }
     ({ s with cpIn := rest, nextId := s.nextId + reqs.length,
               toMem := s.toMem ++ reqs, pending := s.pending ++ reqs,
               processing := s.processing ++ [{ sup := r, subs := reqs.map (·.id), count := reqs.length }] }, true)
